@@ -749,6 +749,15 @@ impl Core {
         Self::make_tcp_http_codec(protocol, core_settings, io, log_id)
     }
 
+    pub(crate) async fn verif_on_new_tls_connection(
+        context: Arc<Context>,
+        acceptor: TlsAcceptor,
+        client_ip: std::net::IpAddr,
+        client_id: log_utils::IdChain<u64>,
+    ) -> Result<(), (log_utils::IdChain<u64>, String)> {
+        Self::on_new_tls_connection(context, acceptor, client_ip, client_id).await
+    }
+
     pub(crate) fn verif_make_forwarder(context: Arc<Context>) -> Box<dyn Forwarder> {
         Self::make_forwarder(context)
     }
